@@ -32,7 +32,9 @@ fn precompose(lang: &str, s: &str) -> String {
             }
         }
         let c = cs[i];
-        let is_mark = (0x300..0x370).contains(&(c as u32));
+        // a combining mark: the general block, or whatever this language composes with
+        // (a custom language may compose with U+3099, U+0345, U+0653 ...)
+        let is_mark = (0x300..0x370).contains(&(c as u32)) || tables::compose_pairs(lang).iter().any(|(d, _)| d.chars().nth(1) == Some(c));
         if !is_mark {
             out.push(c);
         }
